@@ -70,7 +70,7 @@ func isAd(d []byte) bool { return len(d) > 0 && d[0] == 2 }
 
 func runC18Once(t *testing.T, sc c18Scenario, r *xrun) []Violation {
 	var out CaseOut
-	synctest.Test(t, func(t *testing.T) {
+	bubble(t, func(t *testing.T) {
 		m := newMesh(defaultConsts, sc.Names...)
 		for _, e := range sc.Edges {
 			m.up(e[0], e[1], 1)
